@@ -67,6 +67,9 @@ func VerifC32_RangeResponse() {
 	n := rt.Len("size", 0, rt.Param("blob", 6))
 	blob := rt.Bytes("blob", n)
 	hdr := verifRangeText(rt.Len("len", 1, rt.Param("rangelen", 4)))
+	for i := len("bytes="); i < len(hdr); i++ {
+		rt.Assume(hdr[i] != ',') // several ranges: multipart/byteranges responses are outside the claim
+	}
 	r := &http.Request{Method: "GET", Header: http.Header{}}
 	r.Header.Set("Range", hdr)
 	w := &verifRespWriter{}
